@@ -90,7 +90,7 @@ Proof.
   induction segs as [|seg rest IH]; intros x s' H I Hu; cbn [psm_extend_loop] in H.
   - inversion H; subst. exact I.
   - inversion Hu as [|? ? Hseg Hrest]; subst.
-    destruct (list_eqb seg [46] || list_eqb seg [46; 46]); [eapply IH; eassumption|].
+    destruct (psm_skips seg); [eapply IH; eassumption|].
     set (s1 := if (ps + 1 <? nlen x) || (nlen x =? ps) then x ++ [47] else x) in *.
     assert (SInv s1 /\ byte_eqb s1 ps 47 = true) as [I1 Hb1].
     { pose proof (sinv_len x I) as L. destruct I as (A & B & C). subst s1.
